@@ -158,34 +158,43 @@ def rule_shift_affine(eng, rep, rule="C16-3.base-shift-is-an-affine-no-op"):
     selfn = sb.posparams[0]
     se = affine.SymExec(linear_ops={"%s.model_jac" % selfn: "J"})
     try:
-        st = se.run(sb.node.body)
+        paths = se.run_paths(sb.node.body)
     except AnalysisError as ex:
         rep.unknown(rule, eng.where(sb), str(ex))
         return
-    X0 = affine.sym("%s.xbase" % selfn)
-    X1 = st.get("%s.xbase" % selfn, X0)
-    C0 = affine.sym("%s.model_const" % selfn)
-    C1 = st.get("%s.model_const" % selfn, C0)
-    P0 = affine.sym("%s.points[*]" % selfn)
-    P1 = st.get("%s.points[*]" % selfn, P0)
-    s = affine.sym("s_abs")
     site = eng.where(sb)
-    # model value at a fixed absolute point s:  c + J (s - xbase)
-    before = affine.add(C0, affine.apply("J", affine.add(s, X0, -1)))
-    after = affine.add(C1, affine.apply("J", affine.add(s, X1, -1)))
-    if before == after:
-        rep.ok(rule, site, "model_const + J.(s - xbase) is unchanged for a fixed absolute s (%s)" % affine.fmt(after))
-    else:
-        rep.bad(rule, site, "model.Model.shift_base|model-value-changes", "model value at a fixed absolute point changes under shift_base: before %s, after %s" % (affine.fmt(before), affine.fmt(after)))
-    # residual at an interpolation point (enters the assembled gradient/Hessian):  c + J.points[k]
-    before = affine.add(C0, affine.apply("J", P0))
-    after = affine.add(C1, affine.apply("J", P1))
-    if before == after:
-        rep.ok(rule, site, "model_const + J.points[k] is unchanged (the assembled gradient 2 J'r and Hessian 2 J'J are unaffected)")
-    else:
-        rep.bad(rule, site, "model.Model.shift_base|assembled-model-changes", "c + J.points[k] changes under shift_base: before %s, after %s" % (affine.fmt(before), affine.fmt(after)))
-    if "%s.model_jac" % selfn in st and st["%s.model_jac" % selfn] != affine.sym("%s.model_jac" % selfn):
-        rep.bad(rule, site, "model.Model.shift_base|jacobian-written", "shift_base writes the Jacobian")
+    # every path through the method's `if` statements is judged (the tests are not interpreted); an invariant that holds on some paths and fails on others
+    # is undecided (the failing branch may be infeasible), one that fails on every path is a violation
+    verdicts = {}
+    for pse in paths:
+        st = pse.state
+        X0 = affine.sym("%s.xbase" % selfn)
+        X1 = st.get("%s.xbase" % selfn, X0)
+        C0 = affine.sym("%s.model_const" % selfn)
+        C1 = st.get("%s.model_const" % selfn, C0)
+        P0 = affine.sym("%s.points[*]" % selfn)
+        P1 = st.get("%s.points[*]" % selfn, P0)
+        s = affine.sym("s_abs")
+        # model value at a fixed absolute point s:  c + J (s - xbase)
+        before = affine.add(C0, affine.apply("J", affine.add(s, X0, -1)))
+        after = affine.add(C1, affine.apply("J", affine.add(s, X1, -1)))
+        verdicts.setdefault("model-value-changes", []).append((before == after, "model_const + J.(s - xbase) for a fixed absolute s", affine.fmt(before), affine.fmt(after)))
+        # residual at an interpolation point (enters the assembled gradient/Hessian):  c + J.points[k]
+        before = affine.add(C0, affine.apply("J", P0))
+        after = affine.add(C1, affine.apply("J", P1))
+        verdicts.setdefault("assembled-model-changes", []).append((before == after, "model_const + J.points[k] (the assembled gradient 2 J'r and Hessian 2 J'J)", affine.fmt(before), affine.fmt(after)))
+        jw = "%s.model_jac" % selfn in st and st["%s.model_jac" % selfn] != affine.sym("%s.model_jac" % selfn)
+        verdicts.setdefault("jacobian-written", []).append((not jw, "the Jacobian is not written", "J", "written"))
+    for key, vs in verdicts.items():
+        oks = [v for v in vs if v[0]]
+        if len(oks) == len(vs):
+            rep.ok(rule, site, "%s is unchanged on %s (%s)" % (vs[0][1], "the one path" if len(vs) == 1 else "all %d paths" % len(vs), vs[0][3] if key != "jacobian-written" else "no store"))
+        elif not oks:
+            b = vs[0]
+            rep.bad(rule, site, "model.Model.shift_base|%s" % key, "%s changes under shift_base%s: before %s, after %s" % (b[1], "" if len(vs) == 1 else " on every path", b[2], b[3]))
+        else:
+            b = [v for v in vs if not v[0]][0]
+            rep.unknown(rule, site, "%s is preserved on %d of %d paths through shift_base and changes on the others (before %s, after %s): the tests are not interpreted" % (b[1], len(oks), len(vs), b[2], b[3]))
     # shift_base must itself invalidate (covered by C16-1) and be given a relative vector: its call sites pass xopt()
     for ci in eng.calls_to(sb.fid):
         a = ci.node.args[0] if ci.node.args else None
